@@ -7,6 +7,7 @@ import (
 
 	"verif.local/harness/checks"
 	"verif.local/harness/fw"
+	_ "verif.local/harness/plugchecks"
 )
 
 func main() {
